@@ -282,11 +282,11 @@ func (fc *fnCtx) doCall(st *State, fr *frame, call *ssa.Call, k func(*State, Val
 			st.ghost["lockseen:"+recv.T] = recv.T
 		}
 		if fc.interf && spec.key == "(*sync.Mutex).Unlock" {
-			fc.lockInvariant(st, fr, call, site, true)
+			fc.lockInvariant(st, fr, call.Common(), site, true)
 		}
 		fc.applySpec(st, fr, site, spec, recv, args, resT, func(st *State, res []Val) {
 			if fc.interf && spec.key == "(*sync.Mutex).Lock" {
-				fc.lockInvariant(st, fr, call, site, false)
+				fc.lockInvariant(st, fr, call.Common(), site, false)
 			}
 			k(st, packResults(res))
 		})
